@@ -12,9 +12,11 @@ from pqv.props.c07 import haar
 from pqv.props.c04 import perm_def
 
 THEOREMS = ["Pq.C01.fockRep_eq_permSpec", "Pq.C01.passive_amplitude_formula", "Pq.C01.gauss_passive_is_congruence",
-            "Pq.C01.number_conserving_block_structure"]
+            "Pq.C01.number_conserving_block_structure", "Pq.C01.displacement_loop", "Pq.C01.squeezing_loop",
+            "Pq.C01.displacement_heisenberg", "Pq.C01.squeezing_heisenberg"]
 FILES = ["PqVerif/Model/FockRep.lean", "PqVerif/Lemmas/FockRepLaws.lean", "PqVerif/Lemmas/PermSpec.lean", "PqVerif/Lemmas/Glynn.lean",
-         "PqVerif/Props/C01.lean"]
+         "PqVerif/Lemmas/GradLaws.lean", "PqVerif/Lemmas/DispRec.lean", "PqVerif/Lemmas/SqueezeRec.lean", "PqVerif/Lemmas/Intertwine.lean",
+         "PqVerif/Gen/Gates.lean", "PqVerif/Props/C01.lean"]
 HBARS = [0.5, 1.0, 2.0, 3.7]
 
 
@@ -307,6 +309,8 @@ def run(ctx):
                 "non-trivial = non-ascending mode tuple or bunched input / active layer followed by passive gates")
     ctx.assumptions = ["agreement of active gates beyond one layer on the vacuum is limited by truncation and is not claimed",
                        "the metaplectic representation theorem (active gates in Fock space = symplectic action) is not formalised"]
+    from pqv import gengates
+    gengates.regenerate(ctx)      # Props/C01 mentions the blocks of Gen/Gates.lean
     ctx.prove("PqVerif.Props.C01", THEOREMS, FILES)
     import glob, os, subprocess, sys
     for f in sorted(glob.glob(os.path.join(os.path.dirname(__file__), "..", "..", "..", "corpus", "repro", "c16_passive*.py"))):
